@@ -155,7 +155,6 @@ static int vdev_open_common(const char *fn, int dirfd, const char *path, int fla
         // reading a file back (the compression step reads the rotated file) can fail too: descriptor limit, permissions
         c.name = "openrd";
         if (vdev::gate(c, false)) { c.result = -1; vdev::record(c); return -1; }
-        c.name = fn;
     }
     int fd = r_openat64(dirfd, path, flags, mode);
     int e = errno;
